@@ -81,8 +81,12 @@ fn lex_stub<'s: 's>(lexer: &mut logos::Lexer<'s, Tok<'s>>) -> Option<Result<Tok<
     Some(Ok(match class {
         | CODE => Tok::Comma,
         | UNKNOWN => Tok::Unknown(lexer.slice()),
-        | TEXT_LINE => Tok::TextLine(lexer.slice()),
-        | COMMENT_LINE => Tok::CommentLine(lexer.slice()),
+        // line tokens carry a constant text that ends in a terminator (`-- -/`): the unchanged
+        // lexers never look at it; a variant that does (a dash run ending in `-/` closing a block
+        // comment) then differs from the reference, and the constant keeps its string operations
+        // concrete for CBMC
+        | TEXT_LINE => Tok::TextLine("--| -/"),
+        | COMMENT_LINE => Tok::CommentLine("-- -/"),
         | OPEN => Tok::CommentOpen,
         | _ => Tok::CommentClose,
     }))
